@@ -899,7 +899,7 @@ struct pmis {
 
                     for(ptrdiff_t r = 0, k = i * null_cols * null_cols; r < null_cols; ++r)
                         for(int c = 0; c < null_cols; ++c, ++k)
-                            Bnew[k] = qr.R(r,c);
+                            Bnew[k] = (r < d) ? qr.R(r,c) : 0.0;   // R has min(d, null_cols) rows
 
                     for(ptrdiff_t j = aggr_beg, r = 0; j < aggr_end; ++j, ++r) {
                         auto src = std::get<2>(order[j]);
